@@ -743,3 +743,241 @@ func sameMap(a, b map[string]string) bool {
 	}
 	return true
 }
+
+// ------------------------------------------------------------------ C11 concurrent keep-alives
+
+func init() {
+	Register(&Scenario{
+		Name: "c11_peers_conc", Property: "C11", MaxSteps: 4000, Quick: 500, Thorough: 40000,
+		Doc:  "a node's keep-alive racing check-ins and reconnects of its (partly stale) peers and a reader, interleaved before/after the store call and inside the badger transaction (hook H1: real conflicts and retries); every returned eviction list, the reader's view and the final tracked set must be those of some one-at-a-time order of the same operations that respects their real-time order (all permutations are tried against the reference model)",
+		Real: []string{"pool/store/memory", "pool/store/badger (optimistic transactions, conflict retry)"}, Stub: []string{"callers (harness tasks)"},
+		Run: runC11Conc,
+	})
+}
+
+type peerOp struct {
+	kind      string // update | setnode | read
+	node      string
+	peers     []string
+	call, ret int
+	out       []string
+	err       error
+}
+
+func runC11Conc(s *kernel.Sim) {
+	driver := []string{"badger", "badger", "memory"}[s.Choose("driver", 3)]
+	var inner store.Store
+	if driver == "badger" {
+		dir := seams.ScratchDir(s, "c11c")
+		st, err := seams.OpenStore(s, "badger", dir, 1)
+		if err != nil {
+			panic(err)
+		}
+		inner = st
+		seams.InstallTxnHook(s)
+	} else {
+		inner, _ = seams.OpenStore(s, "memory", "", 0)
+	}
+	defer seams.CloseStore(s, inner)
+	ys := seams.NewYieldStore(s, inner, driver)
+	N := "na"
+	peers := []string{"nb", "nc", "nd"}[:2+s.Choose("npeers", 2)]
+	t0 := time.Now()
+	ref := models.NewRefStore(func() time.Time { return t0 })
+	mk := func(id string, seen time.Time) store.Node {
+		return store.Node{ID: store.NodeID(id), IsHost: id != N, Kind: "geth", LastSeen: seen, URI: "enode://" + id + "@h:1"}
+	}
+	// --- history: the peers registered a while ago (some beyond the window), N tracks some of them
+	ages := []time.Duration{0, 30 * time.Second, 119 * time.Second, 121 * time.Second, 10 * time.Minute}
+	inner.SetNode(mk(N, t0))
+	ref.SetNode(mk(N, t0))
+	for _, p := range peers {
+		seen := t0.Add(-ages[s.Choose("age", len(ages))])
+		inner.SetNode(mk(p, seen))
+		ref.SetNode(mk(p, seen))
+	}
+	// N's earlier keep-alive (at t0 - 1 min in both worlds): stamps are the peers' LastSeen at that time
+	var first []string
+	for _, p := range peers {
+		if s.Choose("tracked", 3) != 0 {
+			first = append(first, p)
+		}
+	}
+	time.Sleep(time.Microsecond)
+	t0 = time.Now()
+	if _, err := inner.UpdateNodePeers(store.NodeID(N), first, 1); err != nil {
+		panic(err)
+	}
+	ref.UpdateNodePeers(store.NodeID(N), first, 1)
+	// adopt the stamp the driver wrote for N (its own clock read)
+	if n, err := inner.GetNode(store.NodeID(N)); err == nil {
+		m := ref.Nodes[store.NodeID(N)]
+		m.LastSeen = n.LastSeen
+		ref.Nodes[store.NodeID(N)] = m
+	}
+	// some time passes: tracked peers may now be beyond the window
+	time.Sleep([]time.Duration{time.Second, 61 * time.Second, 100 * time.Second, 125 * time.Second}[s.Choose("gap", 4)])
+	t0 = time.Now()
+	base := ref.Clone()
+
+	// --- the race
+	if s.Choose("sched", 3) != 0 {
+		s.Sched = kernel.SchedPriority
+	}
+	s.SetYield("store", 3)
+	s.SetYield("storeret", 2)
+	if driver == "badger" {
+		s.SetYield("txn", 3)
+	}
+	s.SetYield("op", 3)
+	var ops []*peerOp
+	nops := 2 + s.Choose("nops", 3)
+	ops = append(ops, &peerOp{kind: "update", node: N})
+	for len(ops) < nops {
+		switch s.Choose("kind", 6) {
+		case 0:
+			ops = append(ops, &peerOp{kind: "update", node: N})
+		case 1, 2, 3:
+			ops = append(ops, &peerOp{kind: "update", node: peers[s.Choose("peer", len(peers))]})
+		case 4:
+			ops = append(ops, &peerOp{kind: "setnode", node: peers[s.Choose("peer", len(peers))]})
+		default:
+			ops = append(ops, &peerOp{kind: "read", node: N})
+		}
+	}
+	for _, o := range ops {
+		if o.kind == "update" && o.node == N {
+			for _, p := range peers {
+				if s.Choose("report", 3) != 0 {
+					o.peers = append(o.peers, p)
+				}
+			}
+		}
+	}
+	var mu sync.Mutex
+	seq := 0
+	for i, o := range ops {
+		o := o
+		name := fmt.Sprintf("op%d", i)
+		s.Go(name, func() {
+			s.Gate(name)
+			mu.Lock()
+			seq++
+			o.call = seq
+			mu.Unlock()
+			switch o.kind {
+			case "update":
+				var l []store.NodeID
+				l, o.err = ys.UpdateNodePeers(store.NodeID(o.node), o.peers, 2)
+				for _, x := range l {
+					o.out = append(o.out, string(x))
+				}
+				sort.Strings(o.out)
+			case "setnode":
+				o.err = ys.SetNode(mk(o.node, time.Now()))
+			case "read":
+				var l []store.Node
+				l, o.err = ys.NodePeers(store.NodeID(o.node))
+				o.out = idsOfNodes(l)
+			}
+			mu.Lock()
+			seq++
+			o.ret = seq
+			mu.Unlock()
+			s.TaskLog(name, "%s(%s %v) -> %v err=%v", o.kind, o.node, o.peers, o.out, o.err)
+		})
+	}
+	if r := s.Drive(kernel.DriveOpts{IdleCap: 1}); r != kernel.Done {
+		if r != kernel.Stopped {
+			s.Violate("liveness", "store operation never returns", "drive ended %s", r)
+		}
+		return
+	}
+	for _, o := range ops {
+		if o.err != nil {
+			s.Violate("serial_order", "a keep-alive fails under concurrency ("+driver+" driver)", "%s(%s): %v", o.kind, o.node, o.err)
+			return
+		}
+	}
+	final, _ := inner.NodePeers(store.NodeID(N))
+	finalIDs := idsOfNodes(final)
+	// --- is there a serial order (respecting real-time order) that explains every output?
+	n := len(ops)
+	perm := make([]int, 0, n)
+	used := make([]bool, n)
+	var try func() bool
+	try = func() bool {
+		if len(perm) == n {
+			m := base.Clone()
+			for _, i := range perm {
+				o := ops[i]
+				switch o.kind {
+				case "update":
+					in, bnd, _ := m.UpdateNodePeers(store.NodeID(o.node), o.peers, 2)
+					if len(bnd) > 0 {
+						return true // exact boundary: don't-care
+					}
+					if !sameStrs(idsOf(in), o.out) {
+						return false
+					}
+				case "setnode":
+					m.SetNode(mk(o.node, t0))
+				case "read":
+					l, _ := m.NodePeers(store.NodeID(o.node))
+					if !sameStrs(idsOf(l), o.out) {
+						return false
+					}
+				}
+			}
+			l, _ := m.NodePeers(store.NodeID(N))
+			return sameStrs(idsOf(l), finalIDs)
+		}
+		for i := 0; i < n; i++ {
+			if used[i] {
+				continue
+			}
+			ok := true
+			for j := 0; j < n; j++ {
+				if !used[j] && j != i && ops[j].ret < ops[i].call {
+					ok = false // j finished before i started, so j must come first
+				}
+			}
+			if !ok {
+				continue
+			}
+			used[i] = true
+			perm = append(perm, i)
+			if try() {
+				return true
+			}
+			perm = perm[:len(perm)-1]
+			used[i] = false
+		}
+		return false
+	}
+	if !try() {
+		var b strings.Builder
+		for i, o := range ops {
+			fmt.Fprintf(&b, " op%d[%d,%d] %s(%s %v)->%v;", i, o.call, o.ret, o.kind, o.node, o.peers, o.out)
+		}
+		key := "results of concurrent keep-alives match no one-at-a-time order"
+		for _, o := range ops {
+			for i := 1; i < len(o.out); i++ {
+				if o.kind == "update" && o.out[i] == o.out[i-1] {
+					key = "a peer is declared invalid twice in one reply"
+				}
+			}
+			if o.kind == "update" && o.node == N {
+				for _, x := range o.out {
+					for _, f := range finalIDs {
+						if x == f && len(ops) == 2 {
+							key = "a peer is declared invalid and kept in the active set"
+						}
+					}
+				}
+			}
+		}
+		s.Violate("serial_order", key+" ("+driver+" driver)", "tracked before: %v; ops:%s final tracked set %v", idsOf(func() []store.NodeID { l, _ := base.NodePeers(store.NodeID(N)); return l }()), b.String(), finalIDs)
+	}
+	s.ProbeN("c11.concurrent_ops", n)
+}
